@@ -650,11 +650,48 @@ class ElementWalker(object):
 
     @classmethod
     def iter_links_by_srcset_attrib(cls, attrib_name, attrib_value):
-        images = attrib_value.split(',')
-        links = [value.lstrip().split(' ', 1)[0] for value in images]
+        # As the HTML standard parses the attribute: a candidate is a URL -
+        # which may hold commas - then white space and a descriptor; the
+        # comma that separates two candidates follows the descriptor, or
+        # ends a URL that has none.
+        white_space = ' \t\n\f\r'
+        length = len(attrib_value)
+        index = 0
 
-        for link in links:
-            yield attrib_name, link
+        while True:
+            while index < length and \
+                    (attrib_value[index] in white_space or
+                     attrib_value[index] == ','):
+                index += 1
+
+            if index >= length:
+                break
+
+            start = index
+
+            while index < length and attrib_value[index] not in white_space:
+                index += 1
+
+            link = attrib_value[start:index]
+
+            if link.endswith(','):
+                link = link.rstrip(',')
+            else:
+                depth = 0
+
+                while index < length:
+                    char = attrib_value[index]
+                    index += 1
+
+                    if char == '(':
+                        depth += 1
+                    elif char == ')' and depth:
+                        depth -= 1
+                    elif char == ',' and not depth:
+                        break
+
+            if link:
+                yield attrib_name, link
 
     @classmethod
     def is_link_inline(cls, tag, attribute):
